@@ -47,7 +47,9 @@ class UserBug(Exception):
 class Worker(threading.Thread):
     def __init__(self, idx: int, ops: List[Dict[str, Any]], shared: Any, outside: Any, shared_prog: Dict[str, Any],
                  private: Any = None) -> None:
-        super().__init__(daemon=True)
+        # (all the threads of a case carry ONE name, as the workers of an application often do: a thread is
+        # identified by what it is, never by what it is called)
+        super().__init__(daemon=True, name="worker")
         self.idx, self.ops, self.shared, self.outside, self.sp = idx, ops, shared, outside, shared_prog
         self.private = private  # a DAG owned by this thread alone (built before the threads start)
         self.go = threading.Semaphore(0)
@@ -336,7 +338,7 @@ def _stress(case: Dict[str, Any], res: CaseResult) -> None:
         except BaseException as e:  # noqa: BLE001
             errs.append(f"thread {t}: {type(e).__name__}: {str(e)[:200]}")
 
-    ths = [threading.Thread(target=work, args=(t,), daemon=True) for t in range(n_threads)]
+    ths = [threading.Thread(target=work, args=(t,), daemon=True, name="worker") for t in range(n_threads)]
     for th in ths:
         th.start()
     for th in ths:
@@ -390,7 +392,7 @@ def _buildstress(case: Dict[str, Any], res: CaseResult) -> None:
     old = sys.getswitchinterval()
     sys.setswitchinterval(1e-6)
     try:
-        ths = [threading.Thread(target=work, args=(t,), daemon=True) for t in range(len(progs))]
+        ths = [threading.Thread(target=work, args=(t,), daemon=True, name="worker") for t in range(len(progs))]
         for th in ths:
             th.start()
         for th in ths:
